@@ -9,7 +9,6 @@ from sqllineage.core.parser.sqlfluff.utils import (
     list_child_segments,
 )
 from sqllineage.utils.entities import AnalyzerContext
-from sqllineage.utils.helpers import escape_identifier_name
 
 
 class CreateInsertExtractor(BaseExtractor):
@@ -121,7 +120,7 @@ class CreateInsertExtractor(BaseExtractor):
                         # Special Handling for Spark Bucket Table DDL
                         pass
                     else:
-                        holder.add_write(Path(escape_identifier_name(segment.raw)))
+                        holder.add_write(Path(segment.raw))
                 tgt_flag = False
             if src_flag:
                 if segment.type in ["table_reference", "object_reference"]:
